@@ -7,6 +7,7 @@ from .. import paths, waiters
 from ..core import FUNC, call_attr, calls_in, const, dotted, is_const, kwarg, norm, text, walk_local
 
 EXPLANATION = [
+    "C13.expected-from-argument: every KeyDistribution test in Session.compute_peer_expected_distributions is made on the function's mask parameter.",
     "C13.link-key-needs-sc: every `self.link_key = derive_link_key(self.ltk, ...)` of smp.Session is guarded by self.sc (with legacy pairing each side's ltk is its own).",
     'C13.passkey-verbatim: Session.input_passkey stores the number the user entered unchanged (the parameter of its continuation is not reassigned before `self.passkey = passkey`).',
     "C13.declared-only-reads: Session.get_long_term_key (callable at any time of a session's life) reads none of the attributes Session only declares and assigns later (ltk, ea, eb, ...) directly.",
@@ -957,7 +958,23 @@ def link_key_needs_sc(ctx):
     R.check(n >= 2, rule, f'{S} | link key derivations', f'{n}', f'only {n} found')
 
 
+def expected_from_argument(ctx):
+    """What a side waits for in the key distribution phase is computed from the mask it is given (the peer\'s direction of
+    the negotiated masks): every KeyDistribution test of compute_peer_expected_distributions reads that parameter."""
+    R, p = ctx.r, ctx.p
+    rule = 'C13.expected-from-argument'
+    fn = p.find(f'{S}.compute_peer_expected_distributions')
+    if fn is None:
+        R.bad(rule, f'{S}.compute_peer_expected_distributions', 'anchor missing')
+        return
+    param = [a.arg for a in fn.args.args if a.arg != 'self'][0]
+    tests = [b for b in ast.walk(fn) if isinstance(b, ast.BinOp) and isinstance(b.op, ast.BitAnd) and 'KeyDistribution.' in norm(b)]
+    bad = [b for b in tests if param not in (norm(b.left), norm(b.right))]
+    R.check(len(tests) >= 3 and not bad, rule, f'{S}.compute_peer_expected_distributions', f'{len(tests)} tests, all on `{param}`', f'`{norm(bad[0]) if bad else ""}` reads another mask than the one passed in: the responder derives what it waits for from its own direction of the negotiated masks - with asymmetric masks it waits for keys that never come (or does not wait for keys that do)', p.loc(bad[0]) if bad else p.loc(fn))
+
+
 RULES = [
+    ('C13.expected-from-argument', expected_from_argument),
     ('C13.link-key-needs-sc', link_key_needs_sc),
     ('C13.passkey-verbatim', passkey_verbatim),
     ('C13.declared-only-reads', declared_only_reads),
